@@ -103,6 +103,9 @@ func genQCfg(rc *RunCtx) QCfg {
 	}
 	c.E2E = NewPRNG(rc.Seed^0xe2e).Chance(1, 5) // own stream
 	c.UnixSocket = NewPRNG(rc.Seed^0x50c7).Chance(1, 8)
+	if dl := NewPRNG(rc.Seed ^ 0xdead100c); (rc.Prop == "C05" || rc.Prop == "C01" || rc.Prop == "C08") && dl.Chance(1, 4) {
+		c.DeadLookupd = dl.Pick(1, 1, 2)
+	}
 	if tr := NewPRNG(rc.Seed ^ 0x7715); (rc.Prop == "C04" || rc.Prop == "C02" || rc.Prop == "C03") && tr.Chance(1, 4) {
 		c.TLS = true // consumers may upgrade to TLS (the writer stack is rebuilt on the upgrade: buffering must stay as negotiated)
 	}
@@ -317,7 +320,7 @@ func genQOps(rc *RunCtx, c QCfg) []Op {
 				continue
 			}
 			restarts++
-			o = Op{Kind: "restart", A: int64(r.Intn(4)), B: int64(r.Intn(8)), C: int64(r.Range(1, 4))}
+			o = Op{Kind: "restart", A: int64(r.Intn(5)), B: int64(r.Intn(8)), C: int64(r.Range(1, 4))}
 		}
 		if rc.Prop == "C12" && r.Chance(1, 12) {
 			// step the id generator's clock (the daemon's other timers are unaffected)
@@ -371,7 +374,7 @@ func genQOps(rc *RunCtx, c QCfg) []Op {
 		}
 	}
 	if rc.Prop == "C05" && restarts == 0 {
-		add(Op{Kind: "restart", A: int64(r.Intn(4)), B: int64(r.Intn(8)), C: int64(r.Range(1, 4))})
+		add(Op{Kind: "restart", A: int64(r.Intn(5)), B: int64(r.Intn(8)), C: int64(r.Range(1, 4))})
 		for i := 0; i < r.Range(0, 8); i++ {
 			add(Op{Kind: "pub", A: int64(r.Intn(3)), B: int64(r.Intn(8))})
 		}
@@ -470,6 +473,9 @@ func queueWorld(rc *RunCtx) {
 		}
 	}
 	rc.Logf("cfg %+v", c)
+	if c.DeadLookupd == 1 {
+		w.startDeadLookupd()
+	}
 	if err := w.startNSQD(); err != nil {
 		rc.Violate(rc.Prop, "startup-failed", "%v", err)
 		return
